@@ -67,7 +67,7 @@ class Scenario:
             uid = int(t.split("1.", 1)[1])
         if uid is None:
             return False
-        self.received.append({"id": uid, "conn": conn, "answered": 0, "wire": None})
+        self.received.append({"id": uid, "conn": conn, "answered": 0, "wire": None, "t": asyncio.get_running_loop().time()})
         return True
 
     def response_plain(self, conn, uid):
@@ -173,16 +173,18 @@ class Scenario:
         elif a == "T":
             must_abandon = [r["conn"] for r in self.received if r["answered"] < 2 and r["conn"].is_open and not self.reqs[r["id"]]["task"].done()]
             siblings = {}
+            sent_at = {}
             for r in self.received:
                 if r["answered"] < 2 and r["conn"].is_open and not self.reqs[r["id"]]["task"].done():
                     siblings.setdefault(r["conn"].index, []).append(r["id"])
+                    sent_at[r["id"]] = r["t"]  # the 30 s run from when the request went out (a queued caller waits first)
             await asyncio.sleep(31)
             ctx.count("time_jumps")
             # several requests outstanding on ONE connection: when the oldest one's 30 s timer abandons the connection, the
             # younger ones fail with it - not each at its own timer
             for ci, uids in siblings.items():
                 if len(uids) > 1:
-                    t_first = min(self.reqs[u]["issued"] for u in uids) + 30
+                    t_first = min(sent_at[u] for u in uids) + 30
                     late = [(u, round(self.reqs[u]["done"] - t_first, 2)) for u in uids if self.reqs[u]["done"] is None or self.reqs[u]["done"] > t_first + 0.5]
                     if late:
                         self.ctx.violation("outstanding-request-not-failed-when-sibling-timed-out", f"schedule {self.schedule}: connection {ci} was abandoned when its oldest request timed out; requests {late} (id, seconds late) on the same connection failed only at their own timers", {"schedule": self.schedule, "api": self.api})
